@@ -243,21 +243,6 @@ theorem locale_restored_fixed (v : Variant) (hv : v.localeFix = true) : locale_r
 def heap_balanced_full (v : Variant) : Prop :=
   ∀ (T : Tables) (l : Locale) (s : Option (List Char)), liveAfterFree (compoundParser v T l s) = 0
 
-/-- false for the shipped code, on an error path (`Uu`: 2 blocks stay allocated — every `return 0` of
-    `CompoundParserSimple` skips the `free`s) and on a success path (`(H)`: `tempBracketAtoms` of
-    xraylib-parser.c:283-289 is never freed); both replayed on the library with the allocation counter. -/
-theorem heap_balanced_full_fails : ¬ heap_balanced_full asIs := by
-  intro h
-  have h1 : liveAfterFree (compoundParser asIs T0 ⟨['C']⟩ (some ['U', 'u'])) = 2 := by decide
-  have := h T0 ⟨['C']⟩ (some ['U', 'u'])
-  omega
-
-/-- the success-path leak in the model: one block per nesting level without a direct element symbol -/
-theorem heap_leak_leading_group :
-    liveAfterFree (compoundParser asIs T0 ⟨['C']⟩ (some ['(', 'H', ')'])) = 1 ∧
-    liveAfterFree (compoundParser asIs T0 ⟨['C']⟩ (some ['(', '(', 'H', ')', ')'])) = 2 := by
-  constructor <;> decide
-
 /-- the exact count for the shipped code on every well-formed formula: one block per nesting level (the formula,
     the inside of every group) that contains no element symbol directly. -/
 theorem heap_leak_count (v : Variant) (hv : v.leakFix = false) (T : Tables) (l : Locale) (f : Formula)
@@ -265,6 +250,27 @@ theorem heap_leak_count (v : Variant) (hv : v.leakFix = false) (T : Tables) (l :
   obtain ⟨ca, h1, _⟩ := parseSimple_leak T (f.printL.length + 1) f hf (by omega)
   rw [parse, print_toList]
   exact compoundParser_live_ok v hv T l _ h1
+
+/-- false for the shipped code (and for every variant without the repair C07-3): the accepted formula `(H)`
+    leaves `tempBracketAtoms` of xraylib-parser.c:283-289 allocated (replayed on the library with the allocation
+    counter: `parse C (H)` → 1 block after `FreeCompoundData`). -/
+theorem heap_balanced_full_fails (v : Variant) (hv : v.leakFix = false) : ¬ heap_balanced_full v := by
+  intro h
+  have h1 := h T0 ⟨['C']⟩ (some fParenH.print.toList)
+  have h2 : liveAfterFree (parse v T0 ⟨['C']⟩ fParenH.print) = leakOf fParenH := heap_leak_count v hv T0 _ fParenH fParenH_wf
+  rw [parse, h1] at h2
+  revert h2
+  decide
+
+/-- the error-path leak in the model: every `return 0` of `CompoundParserSimple` skips the `free`s
+    (`Uu`: `upper_locs` and `tempElement` stay allocated; replayed on the library: `parse C Uu` → 2 blocks). -/
+theorem heap_leak_error_path : liveAfterFree (compoundParser asIs T0 ⟨['C']⟩ (some ['U', 'u'])) = 2 := by decide
+
+/-- the success-path leak in the model: one block per nesting level without a direct element symbol -/
+theorem heap_leak_leading_group :
+    liveAfterFree (compoundParser asIs T0 ⟨['C']⟩ (some ['(', 'H', ')'])) = 1 ∧
+    liveAfterFree (compoundParser asIs T0 ⟨['C']⟩ (some ['(', '(', 'H', ')', ')'])) = 2 := by
+  constructor <;> decide
 
 /-- the heap is left as found by every well-formed formula each of whose levels contains an element symbol
     directly (the hypothesis excludes exactly the accepted formulas that leak). -/
